@@ -48,7 +48,8 @@ def run(res, props_file, pinned, monitor_tag, extra_assumptions=()):
         "rule": "histories of 4..32 requests on one real channel (Channel methods and real protocol messages through "
                 "ChannelHandler at protocol 4/5/6, restarts from the store, stub phase, one tag downgraded in ~1/6 of the "
                 "cases), about half of the steps protocol-guided, the rest drawn around the counters (c-2..c+3, 0, "
-                "2^64-1..2^64-3), good / bad signatures, same / changed content on retries; debug and release builds; "
+                "2^64-1..2^64-3), contents with 0..2 HTLCs, good signatures / wrong commitment signature / one wrong HTLC signature / "
+                "fewer HTLC signatures than HTLCs, same / changed content on retries; debug and release builds; "
                 "non-trivial = discloses at least one secret and has >= 8 distinct (request kind, outcome) pairs; distinct by "
                 "full history",
         "samples": [{"proto": cases[0]["proto"], "profile": cases[0]["profile"], "ops": cases[0]["ops"][:12]}],
